@@ -585,6 +585,12 @@ class NodeDerefAssign:
                 raise CklRuntimeError(
                     ValueString("ERROR"), f"Index out of bounds {i}", self.pos
                 )
+            if not value.isString():
+                raise CklRuntimeError(
+                    ValueString("ERROR"),
+                    f"Cannot put {value.type()} into a string",
+                    self.pos,
+                )
             container.value = s[0:i] + value.value + s[i+1:]
             return container
 
